@@ -1057,7 +1057,13 @@ impl ConnectBuilder {
         let client_id_buf = self.client_id_buf.unwrap_or_default();
 
         let will_flag = (connect_flags & 0b0000_0100) != 0;
-        let will_props = self.will_props.unwrap_or_else(Properties::new);
+        // Will properties only exist together with a will message: without one they are not
+        // serialised, so they must not be kept in the packet either.
+        let will_props = if will_flag {
+            self.will_props.unwrap_or_else(Properties::new)
+        } else {
+            Properties::new()
+        };
         let will_property_length = VariableByteInteger::from_u32(will_props.size() as u32).unwrap();
         let will_topic_buf = self.will_topic_buf.unwrap_or_default();
         let will_payload_buf = self.will_payload_buf.unwrap_or_default();
